@@ -114,7 +114,8 @@ class ModuleGen(object):
         out.append('')
         have_init = False
         for j in range(rng.randint(0, 5)):
-            mk = rng.choice(['m', 'static', 'cls', 'prop', 'amethod', 'nestedcls', 'setter', 'deleter', 'wrapped', 'init'])
+            mk = rng.choice(['m', 'static', 'cls', 'prop', 'amethod', 'nestedcls', 'setter', 'deleter', 'wrapped', 'init',
+                             'ctxmethod'])
             if mk == 'init':
                 if have_init:
                     mk = 'm'
@@ -137,6 +138,9 @@ class ModuleGen(object):
                 self.func('    ', 'c%d' % j, '%s.c%d' % (cn, j), True, deco='@classmethod')
             elif mk == 'wrapped':
                 self.func('    ', 'w%d' % j, '%s.w%d' % (cn, j), True, deco='@_deco')
+            elif mk == 'ctxmethod':
+                # wrapped by a functools.wraps based decorator that lives in another module
+                self.func('    ', 'x%d' % j, '%s.x%d' % (cn, j), True, deco='@contextlib.contextmanager')
             elif mk == 'prop':
                 self.func('    ', 'p%d' % j, '%s.p%d' % (cn, j), True, deco='@property', nested=False)
             elif mk in ('setter', 'deleter'):
@@ -157,7 +161,7 @@ class ModuleGen(object):
     def generate(self):
         rng = self.rng
         out = self.out
-        out += ['import functools, os', 'from os.path import join', 'from collections import OrderedDict', '',
+        out += ['import functools, os, contextlib', 'from os.path import join', 'from collections import OrderedDict', '',
                 'def _deco(f):', '    @functools.wraps(f)', '    def w(*a, **k):', '        return f(*a, **k)',
                 '    return w', '', 'def _cdeco(c):', '    return c', '']
         head = []
@@ -169,7 +173,7 @@ class ModuleGen(object):
             self.spec.features.add('module-docstring')
         n = rng.randint(2, 7)
         for k in range(n):
-            kind = rng.choice(['func', 'afunc', 'deco', 'class', 'class', 'if', 'try', 'main', 'with', 'adeco'])
+            kind = rng.choice(['func', 'afunc', 'deco', 'class', 'class', 'if', 'try', 'main', 'with', 'adeco', 'ctxmgr'])
             self.spec.features.add('top:' + kind)
             if kind == 'func':
                 self.func('', 'f%d' % k, 'f%d' % k, True)
@@ -177,6 +181,8 @@ class ModuleGen(object):
                 self.func('', 'af%d' % k, 'af%d' % k, True, is_async=True)
             elif kind == 'deco':
                 self.func('', 'd%d' % k, 'd%d' % k, True, deco='@_deco')
+            elif kind == 'ctxmgr':
+                self.func('', 'cm%d' % k, 'cm%d' % k, True, deco='@contextlib.contextmanager')
             elif kind == 'adeco':
                 self.func('', 'ad%d' % k, 'ad%d' % k, True, deco='@_deco', is_async=True)
             elif kind == 'if':
